@@ -355,6 +355,20 @@ class Unit:
         lh = loop_headers(body)
         info['loops'] = len(lh)
         loops = loops or {}
+        resolved = {}
+        for k, spec in loops.items():
+            if isinstance(k, str):
+                # a loop addressed by the text of its header (regex) instead of its ordinal; a leading `?` makes it optional
+                optional = k.startswith('?')
+                k = k[1:] if optional else k
+                hits = [i for i, (a, b) in enumerate(lh) if re.search(k, body[a:b])]
+                if optional and not hits:
+                    continue
+                if len(hits) != 1:
+                    raise CutError(f'{relpath}: fn {key}: loop header /{k}/ matches {len(hits)} loops')
+                k = hits[0]
+            resolved[k] = spec
+        loops = resolved
         for k, spec in loops.items():
             if k >= len(lh):
                 raise CutError(f'{relpath}: fn {key}: loop #{k} not found (function has {len(lh)} loops)')
